@@ -2,7 +2,7 @@
   Sipsp.Proofs.SigCovered — (1) [C19] the `Covered` hypothesis of the factorisation / invariance theorems (the flag word
   of the header list covers the fingerprinted stored types, `FlagsCover`) holds for EVERY output of the parser, with
   ANY values object; (2) [C05] the shortcut values of the values object equal the `val` of the first stored header of
-  their type.  Everything is about the model (`parseHeaders`, `parseSIPMsg`, `getMsgSig`); NO size bound in (1) and in
+  their type.  Everything is about the model (`parseHeaders`, `parseSIPMsg`, `getMsgSigCore`); NO size bound in (1) and in
   (2a)-(2e) (no 65,535-byte hypothesis; only (2f) has it), no grammar assumption: all buffers, offsets, flags,
   capacities, verdicts.
 
@@ -353,8 +353,8 @@ def svFirsts (m : PSIPMsg) (b : Buf) : List SigKey :=
 theorem svc_factorisation (m : PSIPMsg) (b : Buf) (hp : SvParsed m) (hr : m.request = true) (cid tag : Buf)
     (hc : m.pv.callid.callID.get? (b.extract 0 m.bufLen) = some cid)
     (ht : m.pv.from_.tag.get? (b.extract 0 m.bufLen) = some tag) :
-    (getMsgSig m b).1 = sigApply (svFirsts m b) (sigInit m.fl.methodNo cid tag).sig ∧
-    (getMsgSig m b).2.2 = ((getCallIDSig cid).2.2 || (svFirsts m b).any (fun k => k.viaPnc)) := by
+    (getMsgSigCore m b).1 = sigApply (svFirsts m b) (sigInit m.fl.methodNo cid tag).sig ∧
+    (getMsgSigCore m b).2.2 = ((getCallIDSig cid).2.2 || (svFirsts m b).any (fun k => k.viaPnc)) := by
   rw [getMsgSig_request m b hr cid tag hc ht]
   exact msgSigLoop_view (b.extract 0 m.bufLen) m.hl.pflags m.hl.hdrs.toList m.fl.methodNo cid tag hp.covered
 
@@ -367,7 +367,7 @@ theorem svc_same_view_same_signature (m m' : PSIPMsg) (b b' : Buf) (hp : SvParse
     (hc : m'.pv.callid.callID.get? (b'.extract 0 m'.bufLen) = m.pv.callid.callID.get? (b.extract 0 m.bufLen))
     (ht : m'.pv.from_.tag.get? (b'.extract 0 m'.bufLen) = m.pv.from_.tag.get? (b.extract 0 m.bufLen))
     (hview : svFirsts m' b' = svFirsts m b) :
-    (getMsgSig m' b').1 = (getMsgSig m b).1 ∧ (getMsgSig m' b').2.2 = (getMsgSig m b).2.2 := by
+    (getMsgSigCore m' b').1 = (getMsgSigCore m b).1 ∧ (getMsgSigCore m' b').2.2 = (getMsgSigCore m b).2.2 := by
   cases hcc : m.pv.callid.callID.get? (b.extract 0 m.bufLen) with
   | none =>
     rw [getMsgSig_outside m b hr (Or.inl hcc), getMsgSig_outside m' b' hr' (Or.inl (hc.trans hcc))]
